@@ -56,7 +56,7 @@ fn linearizable(ops: &[LOp], init: Option<Id>) -> bool {
                     }
                     cands.push((Some(o.v), true));
                 }
-                (PKind::Put, _) | (PKind::Ensure, false) => {
+                (PKind::Put, _) | (PKind::RawPut, _) | (PKind::Ensure, false) => {
                     if o.failed {
                         cands.push((reg, true));
                     }
@@ -221,7 +221,7 @@ pub fn run(ctx: &Ctx) -> Report {
                 if let Ok((_, e)) = &r {
                     rep.extra_add("operations_that_returned_an_error_(left_to_C05)", *e as u64);
                 }
-                rep.label(match s { Sched::Walk(_) => "strategy:random walk", Sched::Pct { .. } => "strategy:PCT", Sched::Preempt2 { .. } => "strategy:two preemptions (sampled)", _ => "strategy:single preemption (enumerated)" });
+                rep.label(match s { Sched::Walk(_) => "strategy:random walk", Sched::Pct { .. } => "strategy:PCT", Sched::Preempt2 { .. } => "strategy:two preemptions (sampled)", Sched::Segments(_) => "strategy:explicit multi-preemption segments (sampled)", _ => "strategy:single preemption (enumerated)" });
                 rep.label(if g.layout.kind >= 2 { "via Cache (with ensure)" } else { "via plain::Cache" });
                 if g.layout.dirs_missing {
                     rep.label("cache directory initially missing");
